@@ -2056,7 +2056,7 @@ func pipelineMonitor(r *vkit.Run) {
 					bursts[i] = 4*n + 8 + rng.IntN(40)
 				}
 				oneWrite := rng.IntN(2) == 0
-				pipelineCase(r, caseIdx, proto, n, addr, h, bursts, oneWrite)
+				pipelineCase(r, "pipeline", caseIdx, proto, n, addr, h, bursts, oneWrite)
 				caseIdx++
 			}
 			ctx, cancel := context.WithTimeout(context.Background(), 20*time.Second)
@@ -2065,11 +2065,14 @@ func pipelineMonitor(r *vkit.Run) {
 		}
 	}
 	pipelineTimeoutDirect(r, tlsConf)
+	shutdownRaceMonitor(r, tlsConf)
 }
 
-func pipelineCase(r *vkit.Run, idx int, proto string, n int, addr string, h *pipeHandler, bursts []int, oneWrite bool) {
+// pipelineCase: scope is "pipeline" for servers built directly and
+// "service-pipeline" for listeners built by dnssvc; it prefixes keys and buckets.
+func pipelineCase(r *vkit.Run, scope string, idx int, proto string, n int, addr string, h *pipeHandler, bursts []int, oneWrite bool) {
 	h.reset()
-	desc := map[string]any{"monitor": "pipeline", "case": idx, "proto": proto, "limit": n, "bursts": bursts, "one_write": oneWrite}
+	desc := map[string]any{"monitor": scope, "case": idx, "proto": proto, "limit": n, "bursts": bursts, "one_write": oneWrite}
 	conns := make([]net.Conn, len(bursts))
 	for i := range bursts {
 		var c net.Conn
@@ -2080,7 +2083,7 @@ func pipelineCase(r *vkit.Run, idx int, proto string, n int, addr string, h *pip
 			c, err = tls.DialWithDialer(&net.Dialer{Timeout: 10 * time.Second}, "tcp", addr, &tls.Config{InsecureSkipVerify: true})
 		}
 		if err != nil {
-			r.Inconclusive(fmt.Sprintf("pipeline: cannot connect to the %s server: %v", proto, err))
+			r.Inconclusive(fmt.Sprintf(scope+": cannot connect to the %s server: %v", proto, err))
 			return
 		}
 		conns[i] = c
@@ -2176,7 +2179,7 @@ func pipelineCase(r *vkit.Run, idx int, proto string, n int, addr string, h *pip
 		for k, v := range extra {
 			w[k] = v
 		}
-		r.Violation("pipeline:"+proto+":"+key, what, w)
+		r.Violation(scope+":"+proto+":"+key, what, w)
 	}
 
 	// Phase 1: gate shut.  Wait until every connection has n queries inside
@@ -2205,7 +2208,7 @@ func pipelineCase(r *vkit.Run, idx int, proto string, n int, addr string, h *pip
 			_ = c.Close()
 		}
 		wg.Wait()
-		r.Inconclusive(fmt.Sprintf("pipeline: case %d: the first %d queries did not reach the handler (entered %v, max %v)", idx, n, entered, max))
+		r.Inconclusive(fmt.Sprintf(scope+": case %d: the first %d queries did not reach the handler (entered %v, max %v)", idx, n, entered, max))
 		return
 	}
 	last, stable := -1, 0
@@ -2260,16 +2263,16 @@ func pipelineCase(r *vkit.Run, idx int, proto string, n int, addr string, h *pip
 	}
 	wg.Wait()
 
-	r.Bucket("pipeline_cases", 1)
-	r.Bucket("pipeline_cases_"+proto, 1)
-	r.Bucket("pipeline_connections", int64(len(conns)))
-	r.Bucket("pipeline_handler_entries", int64(total))
+	r.Bucket(scope+"_cases", 1)
+	r.Bucket(scope+"_cases_"+proto, 1)
+	r.Bucket(scope+"_connections", int64(len(conns)))
+	r.Bucket(scope+"_handler_entries", int64(total))
 	atLimit := true
 	for i, c := range conns {
 		key := c.LocalAddr().String()
 		cr := res[i]
-		r.Bucket("pipeline_queries_sent", int64(cr.Sent))
-		r.Bucket("pipeline_answers_received", int64(cr.Answers))
+		r.Bucket(scope+"_queries_sent", int64(cr.Sent))
+		r.Bucket(scope+"_answers_received", int64(cr.Answers))
 		if max[key] > n {
 			fail("concurrency-above-limit",
 				fmt.Sprintf("%d queries of one connection were inside the handler at the same time, limit %d", max[key], n),
@@ -2279,7 +2282,7 @@ func pipelineCase(r *vkit.Run, idx int, proto string, n int, addr string, h *pip
 			atLimit = false
 		}
 		if cr.WriteErr != "" {
-			r.Bucket("pipeline_client_write_errors", 1)
+			r.Bucket(scope+"_client_write_errors", 1)
 		}
 		missing, dup := []uint16{}, []uint16{}
 		for id := 1; id <= cr.Sent; id++ {
@@ -2312,7 +2315,7 @@ func pipelineCase(r *vkit.Run, idx int, proto string, n int, addr string, h *pip
 			det["missing_ids"] = missing
 			switch {
 			case cr.WriteErr != "" || !cr.DoneWrite:
-				r.Bucket("pipeline_ambiguous_client_write", 1)
+				r.Bucket(scope+"_ambiguous_client_write", 1)
 			case cr.EOF:
 				fail("connection-closed-before-all-answers", "the server closed the connection although queries were unanswered", det)
 			case entered[key] < cr.Sent && cur[key] == 0:
@@ -2322,10 +2325,10 @@ func pipelineCase(r *vkit.Run, idx int, proto string, n int, addr string, h *pip
 			}
 		}
 	}
-	class := fmt.Sprintf("%s/n%d/conns%d/onewrite=%v", proto, n, len(conns), oneWrite)
+	class := fmt.Sprintf("%s/%s/n%d/conns%d/onewrite=%v", scope, proto, n, len(conns), oneWrite)
 	r.Eval(class, atLimit)
 	if atLimit {
-		r.Bucket("pipeline_cases_limit_reached", 1)
+		r.Bucket(scope+"_cases_limit_reached", 1)
 	}
 	if idx%7 == 3 {
 		d := map[string]any{"max_concurrent": max, "entered_with_gate_shut": entered1}
@@ -2389,6 +2392,11 @@ func TestCheck(t *testing.T) {
 	r.Require("service_cases_waiting_connection_served_after_resume", int64(r.N(8, 28)))
 	r.Require("service_pipeline_slot_wait_timeouts_exercised", int64(r.N(5, 14)))
 	r.Require("service_connections_served_after_pipeline_slot_wait_timeouts", int64(r.N(4, 10)))
+	r.Require("shutdown_connections_accepted_during_shutdown", int64(r.N(3, 7)))
+	r.Require("shutdown_slot_released_after_shutdown", int64(r.N(3, 7)))
+	r.Require("service-pipeline_cases_limit_reached", int64(r.N(5, 15)))
+	r.Require("service-pipeline_cases_tls", int64(r.N(3, 9)))
+	r.Require("service-pipeline_cases_tcp", int64(r.N(2, 6)))
 	r.Require("pipeline_pipeline_slot_wait_timeouts_exercised", int64(r.N(3, 10)))
 	r.Require("pipeline_connections_served_after_pipeline_slot_wait_timeouts", int64(r.N(2, 6)))
 	r.Require("pipeline_cases_limit_reached", int64(r.N(12, 120)))
